@@ -389,6 +389,13 @@ pub fn check(tier: Tier) -> i32 {
         rep.acc.merge(acc);
         rep.scope(&sp.name, c, done);
     }
+    for (sz, d) in if tier == Tier::Quick { vec![(3usize, 2usize), (4, 1)] } else { vec![(4, 2), (5, 1)] } {
+        let (acc, done) = crate::props::sweep::sweep_gen(sz, d, &budget, |s, acc| eval_str(s, 2, acc));
+        let c = acc.evals;
+        states += c;
+        rep.acc.merge(acc);
+        rep.scope(&format!("gen({sz},{d})"), c, done);
+    }
     let table: Vec<String> = crate::props::c08::boundary_texts().into_iter().filter(|t| !t.contains('\n')).flat_map(|t| vec![format!("k: {t}\n"), format!("[{t}, {t}]\n"), format!("? {t}\n: {t}\n{t}x: [{t}]\n")]).collect();
     let (acc, done) = par_blocks(table.len() as u64, &budget, |b, acc| eval_str(&table[b as usize], 3, acc));
     let c = acc.evals;
